@@ -409,7 +409,20 @@ func freshVal(prefix string, t types.Type) (Val, []*Term) {
 		v[i] = x
 		as = append(as, leafAssume(x, l)...)
 	}
+	as = append(as, nilIfaceCanon(v, ls)...)
 	return v, as
+}
+
+// nilIfaceCanon: a nil interface value (tag 0) carries the data word 0, so that equal interface
+// values are equal leaf by leaf (uninterpreted functions over interface arguments depend on it).
+func nilIfaceCanon(v Val, ls []Leaf) []*Term {
+	var out []*Term
+	for i := 0; i+1 < len(ls); i++ {
+		if ls[i].Kind == LTag && ls[i+1].Kind == LData && !v[i].IsConst() && !v[i].hasBV {
+			out = append(out, Implies(Eq(v[i], IntC(0)), Eq(v[i+1], IntC(0))))
+		}
+	}
+	return out
 }
 
 // namedVal creates leaves with exact names (for function parameters, so models are readable).
@@ -426,6 +439,7 @@ func namedVal(prefix string, t types.Type) (Val, []*Term) {
 		v[i] = x
 		as = append(as, leafAssume(x, l)...)
 	}
+	as = append(as, nilIfaceCanon(v, ls)...)
 	return v, as
 }
 
